@@ -216,6 +216,56 @@ theorem oracle_endpoints_on_L (cs : Contours) (a b : P) (iv : Rat × Rat) (h : i
   obtain ⟨⟨⟨_, h0⟩, h01⟩, h1⟩ := hf
   exact ⟨h0, h01, h1, onSeg_pointAt a b t0 h0 (le_trans h01 h1), onSeg_pointAt a b t1 (le_trans h0 h01) h1⟩
 
+/-! ## the oracle looks at the whole segment -/
+
+theorem between_split (a y z t : Rat) (h : between a z t = true) (hn : between a y t = false) :
+    between y z t = true := by
+  simp only [between, Bool.or_eq_true, Bool.and_eq_true, decide_eq_true_eq, Bool.or_eq_false_iff,
+    Bool.and_eq_false_iff, decide_eq_false_iff_not, not_le] at h hn ⊢
+  rcases h with ⟨h1, h2⟩ | ⟨h1, h2⟩
+  · left
+    rcases hn.1 with h3 | h3
+    · exact absurd h1 (not_le.2 h3)
+    · exact ⟨h3.le, h2⟩
+  · right
+    rcases hn.2 with h3 | h3
+    · exact ⟨h1, h3.le⟩
+    · exact absurd h2 (not_le.2 h3)
+
+theorem consec_cover (l : List Rat) (a z t : Rat) (hh : l.head? = some a) (hl : l.getLast? = some z)
+    (hlen : 2 ≤ l.length) (hb : between a z t = true) : ∃ uv ∈ consec l, between uv.1 uv.2 t = true := by
+  induction l generalizing a with
+  | nil => simp at hlen
+  | cons x l ih =>
+    cases l with
+    | nil => simp at hlen
+    | cons y r =>
+      simp only [List.head?_cons, Option.some.injEq] at hh
+      subst hh
+      cases r with
+      | nil =>
+        simp only [List.getLast?_cons_cons, List.getLast?_singleton, Option.some.injEq] at hl
+        subst hl
+        exact ⟨(x, y), by simp [consec], hb⟩
+      | cons w r' =>
+        by_cases hxy : between x y t = true
+        · exact ⟨(x, y), by simp [consec], hxy⟩
+        · have hyz := between_split x y z t hb (by simpa using hxy)
+          obtain ⟨uv, hm, hbt⟩ := ih y rfl (by simpa [List.getLast?_cons_cons] using hl) (by simp) hyz
+          exact ⟨uv, by rw [consec]; exact List.mem_cons_of_mem _ hm, hbt⟩
+
+/-- **Oracle, coverage.** The sub-intervals the oracle classifies tile the whole segment: every
+parameter `t ∈ [0,1]` lies in one of them (so nothing of the segment is skipped; what remains
+unproved is only that the status is constant inside a sub-interval). -/
+theorem oracle_subintervals_cover (cs : Contours) (a b : P) (t : Rat) (h0 : 0 ≤ t) (h1 : t ≤ 1) :
+    ∃ iv ∈ subIntervals cs a b, between iv.1 iv.2.1 t = true := by
+  have hb : between 0 1 t = true := by simp [between, h0, h1]
+  obtain ⟨uv, hm, hbt⟩ := consec_cover (0 :: (sortDedup (crossParams cs a b)) ++ [1]) 0 1 t rfl
+    (by rw [List.getLast?_concat]) (by simp) hb
+  refine ⟨(uv.1, uv.2, inside cs (pointAt a b ((uv.1 + uv.2) / 2))), ?_, hbt⟩
+  simp only [subIntervals, List.mem_map]
+  exact ⟨uv, hm, rfl⟩
+
 /-! ## non-vacuity -/
 
 def sqC : Contours := [[⟨1/2, 1/2⟩, ⟨9/2, 1/2⟩, ⟨9/2, 9/2⟩, ⟨1/2, 9/2⟩, ⟨1/2, 1/2⟩]]
